@@ -13,6 +13,7 @@ import (
 	"os"
 	"path/filepath"
 	"strings"
+	"testing/synctest"
 	"time"
 
 	"verif/simrt"
@@ -417,6 +418,7 @@ func runC17(c *Ctx, body json.RawMessage) *Verdict {
 	hung := false
 	cfg := cs.Sched.Config(c)
 	var traces []simrt.Trace
+	leftover := ""
 	panicText := c.Bubble(func() {
 		defer func() {
 			if hung {
@@ -426,6 +428,19 @@ func runC17(c *Ctx, body json.RawMessage) *Verdict {
 				if db != nil && isOpen[h] {
 					_ = guard(func() { db.Close() })
 				}
+			}
+			// database/sql's own goroutines (connection cleaner, opener) are no tasks of the scheduler: one may
+			// still be backing off on a simulated lock the closing goroutine held a moment ago. Let simulated
+			// time pass until the bubble is empty; what remains after 10 simulated seconds is a leak.
+			for i := 0; i < 100; i++ {
+				synctest.Wait()
+				left := bubbleGoroutines()
+				if len(left) <= 1 {
+					leftover = ""
+					break
+				}
+				leftover = strings.Join(left[1:], "\n\n")
+				time.Sleep(100 * time.Millisecond)
 			}
 		}()
 		for pi, ph := range cs.Phases {
@@ -620,7 +635,7 @@ func runC17(c *Ctx, body json.RawMessage) *Verdict {
 		return bad
 	}
 	if panicText != "" {
-		return v.Violate("goroutine-leak", "bubble ended with blocked goroutines: %s", panicText)
+		return v.Violate("goroutine-leak", "bubble ended with blocked goroutines: %s\n%s", panicText, leftover)
 	}
 	return v
 }
